@@ -4,6 +4,7 @@ import DeltaModel.Term
 import DeltaModel.Style
 import DeltaModel.PaintLine
 import DeltaModel.BlameMeta
+import DeltaModel.DecoWords
 /-!
 Model driver `drv_style` (C12, C09): answers the `style.*` requests of
 /repo/src/verif_hooks/style.rs from the Lean model (same dump formats; see that file).
@@ -215,6 +216,33 @@ def step (line : String) : String :=
       | .ok dd => "ok " ++ dumpDeco dd
       | .error e => dumpFatal e)
     else none
+  -- T12: the same requests answered by the table-driven functions of DeltaModel/DecoWords.lean
+  --   decowords.parse <special|deco> <default> <tc> <style> <deco | -> <q>      (as style.parse)
+  --   decowords.config <color_only 0|1> <key> <tc> <style> <deco | -> <q>       (the style `Config` holds under <key>)
+  | ["decowords.parse", kind, d, tc, s, deco, q] => opt do
+    let d ← parseDefault d
+    let tc ← flag tc
+    let s ← charsOfField s
+    let deco ← if deco = "-" then some none else (charsOfField deco).map some
+    let q ← parseQ q
+    let env : Env := ⟨tc, q⟩
+    if kind = "special" then pure (match DecoWords.fromStrSpecialT env d s deco with
+      | .ok st => "ok " ++ dumpStyle st
+      | .error e => dumpFatal e)
+    else if kind = "deco" then pure (match DecoWords.parseDecoT env s with
+      | .ok dd => "ok " ++ dumpDeco dd
+      | .error e => dumpFatal e)
+    else none
+  | ["decowords.config", co, key, tc, s, deco, q] => opt do
+    let co ← flag co
+    let key ← stringOfField key
+    let tc ← flag tc
+    let s ← charsOfField s
+    let deco ← if deco = "-" then some none else (charsOfField deco).map some
+    let q ← parseQ q
+    pure (match DecoWords.configStyleT ⟨tc, q⟩ co key s deco with
+      | .ok st => "ok " ++ dumpStyle st
+      | .error e => dumpFatal e)
   | ["style.color", tc, w, q] => opt do
     let tc ← flag tc
     let w ← stringOfField w
